@@ -39,6 +39,8 @@ class Ctx:
         self.timeout = P_TIMEOUT_MS
         self.feas_timeout = 10000
         self.assume_pos_sqrt = False
+        self.choice_limit = None    # number of leading random draws that are enumerated exhaustively
+        self.fixed_choices = None   # outcomes used for the draws after that
         self.skip_unknown = False   # harness option: do not explore branches whose feasibility z3 cannot decide
         self.deadline = None      # wall-clock budget of the current configuration
         self.reset_path()
@@ -288,6 +290,12 @@ def choose(n, label=''):
     if n <= 0:
         raise ValueError('choose from empty range')
     k = len(C.choices)
+    if C.choice_limit is not None and k >= C.choice_limit:
+        # beyond the exhaustively explored prefix of draws: a fixed representative outcome (stated in the bounds)
+        fx = C.fixed_choices
+        v = (fx[(k - C.choice_limit) % len(fx)] if fx else 0) % n
+        C.choices.append((v, 1))        # domain 1: not enumerated
+        return v
     if k < len(C.cprefix):
         v = C.cprefix[k]
         if v >= n:
